@@ -936,7 +936,8 @@ class Variable(CanBehaveLikeAVariable[T]):
             self._update_domain_(self._domain_source_.domain)
 
     def _update_domain_(self, domain):
-        if domain:
+        # (a single object that happens to be falsy - an empty container-like instance - is a domain of one object)
+        if domain is not None and (domain or not is_iterable(domain)):
             new_domain = None
             if isinstance(domain, HashedIterable):
                 self._domain_ = domain
